@@ -30,7 +30,7 @@ func init() {
 type contact struct {
 	addr *net.UDPAddr
 	id   [20]byte
-	mode int // 0 answers, 1 never answers, 2 answers late
+	mode int  // 0 answers, 1 never answers, 2 answers late
 	ro   bool // flags its responses read-only (BEP 43): must not be admitted through them
 	peer *core.Peer
 }
@@ -42,7 +42,8 @@ type ckey struct {
 
 type evidence struct {
 	queried  bool // sent S a non-ro query (delivered, unblocked)
-	answered bool // a response from it matched a pending transaction of S
+	answered bool // a response from it, not flagged read-only, matched a pending transaction of S
+	replied  bool // any response from it matched a pending transaction of S (read-only flag or not)
 	added    bool // AddNode
 	last     time.Time
 }
@@ -340,11 +341,17 @@ func tbl(r *Run, focus string) {
 	}
 	var starting []dht.Addr
 	cfg.StartingNodes = func() ([]dht.Addr, error) { return starting, nil }
+	var lateList iplist.Ranger
 	if useBlock {
 		// block 45.0.0.0/8 style range; contacts are drawn into it on purpose sometimes
 		rng := iplist.Range{First: net.IPv4(45, 0, 0, 0), Last: net.IPv4(45, 255, 255, 255), Description: "blocked"}
-		cfg.IPBlocklist = iplist.New([]iplist.Range{rng})
-		tw.blocked = func(ip net.IP) bool { ip4 := ip.To4(); return ip4 != nil && ip4[0] == 45 }
+		l := iplist.New([]iplist.Range{rng})
+		if ch.Chance(1, 2, "cfg.blocklist.late") {
+			lateList = l // installed later, right after a contact inside it was queried
+		} else {
+			cfg.IPBlocklist = l
+			tw.blocked = func(ip net.IP) bool { ip4 := ip.To4(); return ip4 != nil && ip4[0] == 45 }
+		}
 	}
 	s, conn := r.NewServer(cfg, local)
 	if s == nil {
@@ -404,7 +411,7 @@ func tbl(r *Run, focus string) {
 			delete(tw.pending, from.String()+"|"+t)
 			rr, _ := d.Dict("r")
 			id, ok := id20(rr, "id")
-			if !ok || ro == 1 {
+			if !ok {
 				return
 			}
 			k := key(from.String(), id)
@@ -412,6 +419,10 @@ func tbl(r *Run, focus string) {
 			if e == nil {
 				e = &evidence{}
 				tw.ev[k] = e
+			}
+			e.replied = true
+			if ro == 1 {
+				return
 			}
 			e.answered, e.last = true, time.Now()
 		default:
@@ -543,7 +554,7 @@ func tbl(r *Run, focus string) {
 		nsteps = min(nsteps, 50)
 	}
 	for step := 0; step < nsteps && !r.Failed(); step++ {
-		switch ch.Pick([]int{8, 6, 2, 2, 4, 1, 1, 1}, "ev") {
+		switch ch.Pick([]int{8, 6, 2, 2, 4, 1, 1, 1, 1}, "ev") {
 		case 0: // inbound query
 			var c *contact
 			if len(tw.contacts) > 0 && ch.Chance(1, 3, "q.known") {
@@ -588,6 +599,16 @@ func tbl(r *Run, focus string) {
 			} else if kind == 3 {
 				ni.ID = tw.sid
 			}
+			otherForm := kind <= 1 && ch.Chance(1, 3, "add.otherform") && c.addr.IP.To4() != nil
+			if otherForm {
+				// the API caller hands the IPv4 address in the byte form the socket does not use
+				if len(ni.Addr.IP) == 4 {
+					ni.Addr.IP = ni.Addr.IP.To16()
+				} else {
+					ni.Addr.IP = ni.Addr.IP.To4()
+				}
+				r.Probe("addnode-other-ip-form")
+			}
 			k := key(c.addr.String(), ni.ID)
 			if tw.ev[k] == nil {
 				tw.ev[k] = &evidence{}
@@ -598,6 +619,9 @@ func tbl(r *Run, focus string) {
 			r.Settle()
 			pumpCalls(10 * time.Second)
 			tw.check(fmt.Sprintf("AddNode(%s@%s) err=%v", hex8(ni.ID[:]), c.addr, err))
+			if otherForm && !r.Failed() {
+				qIn(c, false) // the same contact is then heard on the socket
+			}
 		case 4: // clock
 			var d time.Duration
 			switch ch.Intn(4, "clk.kind") {
@@ -640,6 +664,34 @@ func tbl(r *Run, focus string) {
 				}
 				qIn(c2, false)
 			}
+		case 8: // (C06, blocklist runs) a contact is blocked after it was pinged; its answer must not admit it
+			if !useBlock || lateList == nil {
+				continue
+			}
+			c := mkContact(hotPrefix)
+			ip := net.IPv4(45, byte(r.Rng.Intn(256)), byte(r.Rng.Intn(256)), byte(1+r.Rng.Intn(250)))
+			if dual {
+				c.addr.IP = ip.To16()
+			} else {
+				c.addr.IP = ip.To4()
+			}
+			delete(r.Peers, c.peer.Addr.String())
+			c.peer.Addr = c.addr
+			r.AddPeer(c.peer)
+			c.mode = 0
+			saved := r.Faults
+			r.Faults.LatMin, r.Faults.LatMax = 100*time.Millisecond, 200*time.Millisecond
+			cc := c
+			r.Go(fmt.Sprintf("lateblock%d", step), func() any { return s.Ping(cc.addr).Err })
+			r.Settle()
+			r.Route()
+			s.SetIPBlockList(lateList)
+			tw.blocked = func(ip net.IP) bool { ip4 := ip.To4(); return ip4 != nil && ip4[0] == 45 }
+			lateList = nil
+			r.Logf("blocklist installed after pinging %s", c.addr)
+			r.FaultHit("blocked-after-query")
+			pumpCalls(10 * time.Second)
+			r.Faults = saved
 		case 7: // ids equal to the node's own or zero
 			c := mkContact(-1)
 			if ch.Chance(1, 2, "special.own") {
@@ -686,7 +738,7 @@ func c09probes(r *Run, tw *tblWorld, dual bool) {
 				ngood++
 				// independent evidence: a good contact has answered one of S's own queries
 				ev := tw.ev[key(n.Addr, n.ID)]
-				if ev == nil || !ev.answered {
+				if ev == nil || !ev.replied {
 					r.Violate("good-without-answer", "table entry %s@%s counts as good but the traffic log has no response from it matching a query of this node", hex8(n.ID[:]), n.Addr)
 					return false
 				}
